@@ -20,7 +20,7 @@ timeout 2400 /venv/bin/python -m pytest -q -p no:cacheprovider --timeout=900 tes
 SUMMARY=$(tail -1 /tmp/mw/$NAME.tests.log)
 if [ "$TESTS" != 0 ]; then
   # the suite has load-sensitive tests (real sockets, timing): re-run only the failed tests, alone
-  FAILED=$(grep -E "^(FAILED|ERROR) " /tmp/mw/$NAME.tests.log | awk '{print $2}' | sort -u)
+  FAILED=$(grep -E "^(FAILED|ERROR) tests/" /tmp/mw/$NAME.tests.log | awk '{print $2}' | sort -u)
   if [ -n "$FAILED" ] && [ "$(echo "$FAILED" | wc -l)" -le 3 ]; then
     if timeout 900 /venv/bin/python -m pytest -q -p no:cacheprovider --timeout=900 $FAILED >/tmp/mw/$NAME.retest.log 2>&1 \
        && timeout 900 /venv/bin/python -m pytest -q -p no:cacheprovider --timeout=900 $FAILED >>/tmp/mw/$NAME.retest.log 2>&1; then
